@@ -488,7 +488,8 @@ Theorem new_buffer_exact : forall bits enc, well_behaved bits enc ->
               Done {| nb_buffer := buf; nb_result := r; nb_bad := false |} /\
     (buf = None \/ buf = Some (concat delivered)) /\
     (malloc_ok = false -> buf = None) /\
-    (malloc_ok = true -> (forall i, afail i = false) -> buf = Some (concat delivered)).
+    (encoded r < 0 -> buf = None) /\
+    (malloc_ok = true -> (forall i, afail i = false) -> 0 <= encoded r -> buf = Some (concat delivered)).
 Proof.
   intros bits enc [sc [Hsc Hok]] calls delivered r Hrun malloc_ok afail.
   unfold fault_free_run in Hrun.
@@ -509,28 +510,39 @@ Proof.
       rewrite Z.eqb_refl. cbn [negb]. apply andb_false_r.
     - destruct (api_final_fail bits sc h Hen) as [H1 _]. rewrite H1. reflexivity. }
   rewrite Hcmp.
+  destruct (encoded (api_final bits sc) <? 0) eqn:Eneg.
+  { exists None. rewrite Gb. split; [reflexivity|]. split; [left; reflexivity|]. split; [reflexivity|].
+    split; [reflexivity|]. intros _ _ Hpos. lia. }
   destruct Gbuf as [Hn | [Hs [Hlt Hcap]]].
   - rewrite Hn. exists None. rewrite Gb. split; [reflexivity|]. split; [left; reflexivity|]. split; [reflexivity|].
-    intros Hm Ha. exfalso. apply (A Ha); [|exact Hn]. unfold st0. rewrite Hm. cbn. discriminate.
+    split; [reflexivity|].
+    intros Hm Ha _. exfalso. apply (A Ha); [|exact Hn]. unfold st0. rewrite Hm. cbn. discriminate.
   - rewrite Hs. destruct (negb (d_comp st <? d_cap st)) eqn:E2; [lia|].
     exists (Some (concat (api_chunks bits sc))). rewrite Gb. split; [reflexivity|]. split; [right; reflexivity|].
-    split; [|reflexivity].
+    split; [|split; [intros Hlt0; lia | reflexivity]].
     intros Hm. exfalso. assert (Hx : d_buf st = None). { apply N. unfold st0. rewrite Hm. reflexivity. } congruence.
 Qed.
 
-(* asn_application.h: "On failure: (.buffer) is NULL" — not what the code does *)
+(* asn_application.h: "On failure: (.buffer) is NULL" *)
+Theorem new_buffer_null_on_failure : forall bits enc, well_behaved bits enc ->
+  forall calls delivered r, fault_free_run bits enc calls delivered r -> encoded r < 0 ->
+  forall malloc_ok afail,
+  asn_encode_to_new_buffer true (Op bits enc) malloc_ok afail =
+  Done {| nb_buffer := None; nb_result := r; nb_bad := false |}.
+Proof.
+  intros bits enc W calls delivered r F Hneg malloc_ok afail.
+  destruct (new_buffer_exact bits enc W calls delivered r F malloc_ok afail) as [b [E [_ [_ [Nf _]]]]].
+  rewrite E, (Nf Hneg). reflexivity.
+Qed.
+
+(* an encoder that fails after having delivered a chunk: the collected bytes are released *)
 Definition failing_after_one_chunk : script :=
   {| chunks := [[1; 2; 3]]; ending := IFail true; on_cb_fail := IFail true |}.
 
-Lemma new_buffer_null_on_failure_refuted :
-  exists enc, well_behaved false enc /\
-    asn_encode_to_new_buffer true (Op false enc) true (fun _ => false) =
-    Done {| nb_buffer := Some [1; 2; 3]; nb_result := {| encoded := -1; err := EBADF |}; nb_bad := false |}.
-Proof.
-  exists (run_script failing_after_one_chunk). split.
-  - exists failing_after_one_chunk. split; [intros S cb s; reflexivity|]. split; [reflexivity | exact I].
-  - vm_compute. reflexivity.
-Qed.
+Example ex_new_buffer_null_on_failure :
+  asn_encode_to_new_buffer true (Op false (run_script failing_after_one_chunk)) true (fun _ => false) =
+  Done {| nb_buffer := None; nb_result := {| encoded := -1; err := EBADF |}; nb_bad := false |}.
+Proof. vm_compute. reflexivity. Qed.
 
 (* the asserts are real: an encoder that breaks the contract aborts *)
 Definition miscounting : script := {| chunks := [[1; 2]]; ending := IOk 3; on_cb_fail := IFail true |}.
@@ -680,17 +692,21 @@ Qed.
 Lemma new_buffer_of_view ch o m :
   (forall bs, concat (ch bs) = bs) ->
   asn_encode_to_new_buffer true (Op false (run_script (bytes_script ch o))) m (fun _ => false) =
-  Done {| nb_buffer := if m then Some (fst (api_view o)) else None; nb_result := snd (api_view o); nb_bad := false |}.
+  Done {| nb_buffer := if m then o else None; nb_result := snd (api_view o); nb_bad := false |}.
 Proof.
   intros H.
   assert (W : well_behaved false (run_script (bytes_script ch o))).
   { exists (bytes_script ch o). split; [intros S cb s; reflexivity | apply bytes_script_ok, H]. }
   pose proof (fault_free_script false _ (bytes_script_ok ch o H)) as F.
-  destruct (new_buffer_exact false _ W _ _ _ F m (fun _ => false)) as [b [E [_ [N Sm]]]].
+  destruct (new_buffer_exact false _ W _ _ _ F m (fun _ => false)) as [b [E [_ [N [Nf Sm]]]]].
   pose proof (bytes_script_view ch o H) as V. rewrite E.
-  rewrite <- V. cbn [fst snd]. destruct m.
-  - rewrite (Sm eq_refl (fun _ => eq_refl)). reflexivity.
-  - rewrite (N eq_refl). reflexivity.
+  pose proof (f_equal fst V) as V1. pose proof (f_equal snd V) as V2. cbn [fst snd] in V1, V2.
+  rewrite V2 in *. rewrite V1 in *. clear V V1 V2.
+  destruct o as [bs|]; cbn [api_view fst snd encoded] in *.
+  - destruct m.
+    + rewrite (Sm eq_refl (fun _ => eq_refl) (zlen_nonneg bs)). reflexivity.
+    + rewrite (N eq_refl). reflexivity.
+  - assert (Hb : b = None) by (apply Nf; lia). rewrite Hb. destruct m; reflexivity.
 Qed.
 
 Theorem chunking_irrelevant : forall ch1 ch2 o m,
